@@ -1,6 +1,6 @@
 """C08 configuration for ./check (see checks/propcfg.py for the keys)."""
 CFG = {
-    "modules": ["VaxisModel.Props.C08", "VaxisModel.Props.C08Fine", "VaxisModel.Props.C08Pools", "VaxisModel.Props.C08Live", "VaxisModel.Props.C08Spec", "VaxisModel.Props.C08FineChan", "VaxisModel.Props.C08Order", "VaxisModel.Props.C08Drive", "VaxisModel.Props.C08Payload", "VaxisModel.Props.C08Sched", "VaxisModel.Props.C08DriveParams", "VaxisModel.Props.C08FineFair", "VaxisModel.Props.C08SchedNormal", "VaxisModel.Props.C08SchedGroup", "VaxisModel.Witness.F29"],
+    "modules": ["VaxisModel.Props.C08", "VaxisModel.Props.C08Fine", "VaxisModel.Props.C08Pools", "VaxisModel.Props.C08Live", "VaxisModel.Props.C08Spec", "VaxisModel.Props.C08FineChan", "VaxisModel.Props.C08Order", "VaxisModel.Props.C08Drive", "VaxisModel.Props.C08Payload", "VaxisModel.Props.C08Sched", "VaxisModel.Props.C08DriveParams", "VaxisModel.Props.C08FineFair", "VaxisModel.Props.C08SchedNormal", "VaxisModel.Props.C08SchedGroup", "VaxisModel.Props.C08SchedEnum", "VaxisModel.Witness.F29"],
     "extractors": ["C02"],
     "drivers": ["C08", "C08Sched"],
     "trivial_prefix": ("Z |",),
@@ -25,7 +25,8 @@ CFG = {
                      "forced schedules: the reductions of the enumeration (Close() issued in front of a select; a timer expires right after arming or never) are theorems: closeSig_commutes / expire_commutes, closeSig_moves_later / expire_moves_earlier and their iteration closeSig_normal_form / expire_normal_form / joint_normal_form "
                      "(Props/C08SchedNormal: every schedule of single statements has a permutation with the same final state and items in which every Close() stands in front of a select or at the end and every expiry right behind the arming statement); "
                      "the grouping of statements into harness labels loses nothing either (Props/C08SchedGroup: complete_schedule_is_harness_schedule - every complete schedule of single statements from the initial state has a harness-label schedule with the same final state and items); "
-                     "not yet one theorem: the composition of the normal forms with the grouping into a member of the enumerated list; "
+                     "and the loop is closed (Props/C08SchedEnum: complete_schedule_is_reduced / _close - every complete schedule of single statements from the initial state, without Close() or with one observed Close(), has the same final state and items as a "
+                     "harness-label schedule that is Reduced for the script of its reads and hence, under the cap, a member of the enumerated list); not covered: an unobserved / repeated Close(); "
                      "the scheduler cannot park between ReadRune's return and the Stop() in readRune nor between a failed check and the deferred Unlock (no yield point)"],
     "assumptions": ["the consumer keeps receiving (emit blocks otherwise, by design: consumer_stops_blocks; with a receiving consumer every finite input terminates: finite_input_terminates on the atomic layer, fchan_fair_run_terminates at statement grain)", "each delivered sequence is passed to Finish at most once",
                     "back-to-back reads of the scripted reader are less than 10 ms apart on the test machine (prompt cases with surplus Escape reports are re-run); no other elapsed time enters a verdict"],
@@ -53,7 +54,9 @@ CFG = {
                   "Composition with C02 (Props/C08Spec): for every schedule the delivered items are exactly what the reference machine of Spec/VT500.lean prescribes for the same labels - runes through the VT500 machine "
                   "(F102 on; F102c is repaired), the Escape key = Spec escKey at every up-to-date timer firing and nowhere else, the open control string at end of input, one EOF; for segment scripts this is Spec.runWithEscKeysD, the driver's oracle. "
                   "Round 4 - forced schedules: every schedule the model hands to the harness is a complete run of the statement-grained LTS (enumerate_sound), the list is exactly the set of complete interleavings under two commuting reductions "
-                  "(enumerate_complete), every replayed label is one or two statements of FSys.step (srun_is_fine_run), so the theorems above speak about each replay; the oracle clauses of the replay are theorems of the LTS: "
+                  "(enumerate_complete), and conversely every complete schedule of single statements of the LTS (without Close() or with one observed Close()) has the same final state and items as one of the enumerated schedules "
+                  "(normal forms by commuting moves + grouping into harness labels: Props/C08SchedNormal, C08SchedGroup, C08SchedEnum: complete_schedule_is_reduced); "
+                  "every replayed label is one or two statements of FSys.step (srun_is_fine_run), so the theorems above speak about each replay; the oracle clauses of the replay are theorems of the LTS: "
                   "guarded fields are written only by the goroutine holding the mutex (fine_writes_under_mutex), a lone ESC followed by silence is reported in every interleaving (fine_lone_esc_reported); without escGen++ before emit(EOF) the callback of a lone ESC sends on the closed channel, "
                   "with the bump moved into escape() a SUB does not outdate it (statement-grained witnesses = the replays found on the changed code). "
                   "Fair-run termination at statement grain (Props/C08FineFair): for every finite input, every expiry policy and any capacity >= 1 the fair scheduler over the bounded-channel statement system ends within an explicit bound with run() returned, "
